@@ -200,6 +200,38 @@ func gen(r *hx.Rand, tier string) []json.RawMessage {
 			}
 		}
 	}
+	// large geometries: the occupancy table of advanceItems leaves its 128-slot stack buffer when
+	// width * (occupied stage span + 3) > 128 — very wide, or deep and kept full
+	{
+		var rs []roundIn
+		rs = append(rs, roundIn{Acc: []acc{{ID: 1, Delay: 1}}, Dflt: true})
+		for k := 0; k < 6; k++ {
+			rs = append(rs, roundIn{Dflt: true})
+		}
+		out = append(out, hx.J(input{48, 3, rs}))
+		rs = nil
+		id := uint64(1)
+		for k := 0; k < 52; k++ {
+			var a []acc
+			if k < 44 {
+				a = append(a, acc{ID: id})
+				id++
+			}
+			rs = append(rs, roundIn{Acc: a, Dflt: true})
+		}
+		out = append(out, hx.J(input{4, 40, rs}))
+		rs = nil
+		id = 1
+		for k := 0; k < 40; k++ {
+			var a []acc
+			if k < 30 {
+				a = append(a, acc{ID: id, Delay: int64(k % 3)}, acc{ID: id + 1})
+				id += 2
+			}
+			rs = append(rs, roundIn{Acc: a, Dflt: k%7 != 3})
+		}
+		out = append(out, hx.J(input{7, 24, rs}))
+	}
 	// degenerate geometries
 	out = append(out, hx.J(input{0, 3, []roundIn{{Acc: []acc{{ID: 1}}, Dflt: true}, {Dflt: true}}}))
 	out = append(out, hx.J(input{2, 0, []roundIn{{Acc: []acc{{ID: 1}, {ID: 2, Delay: 1}}, Dflt: true}, {Dflt: true}, {Dflt: true}}}))
@@ -215,6 +247,13 @@ func gen(r *hx.Rand, tier string) []json.RawMessage {
 			st = r.Range(10, 40) // beyond the 128-slot stack table of buildOccupancy (with w)
 		}
 		nr := r.Range(3, 16)
+		steady := false
+		if r.Chance(1, 60) { // very wide
+			w, st = r.Range(43, 60), r.Range(1, 4)
+		} else if r.Chance(1, 150) { // deep and kept full by a steady stream
+			w, st, steady = r.Range(3, 6), r.Range(28, 40), true
+			nr = st + r.Range(6, 12)
+		}
 		sinkMode := r.Pick(4, 3, 2, 2) // always ready | random per call | blocked for a while then ready | k slots per tick
 		blockUntil := r.Range(1, nr)
 		id := uint64(1)
@@ -228,6 +267,9 @@ func gen(r *hx.Rand, tier string) []json.RawMessage {
 				na = r.Range(1, w)
 			default:
 				na = w + 1
+			}
+			if steady {
+				na = 1
 			}
 			if k > nr*2/3 && r.Bool() {
 				na = 0 // let it drain
@@ -302,7 +344,8 @@ func init() {
 		Imports: "From Akita Require Import Lib.Base C15.Model C15.Exec.",
 		Rule: "rounds of (guarded Accept/AcceptWithDelay attempts, then one Tick against a scripted sink) on queueing.Pipeline[uint64]. " +
 			"Directed: widths 1..3 x stages {1,2,3,5} x delays {0,1,3} with more attempts than lanes and an always-ready sink (includes the " +
-			"single-stage dwell), zero width, zero stages, negative delays. Random: width 1..4 (sometimes 5..18), stages 1..9 (sometimes 10..40), " +
+			"single-stage dwell), zero width, zero stages, negative delays; large geometries whose occupancy table exceeds 128 slots (48x3, 4x40 and 7x24 kept full; " +
+			"1/60 of the random cases are 43..60 lanes wide, 1/150 are 28..40 stages deep with a steady stream). Random: width 1..4 (sometimes 5..18), stages 1..9 (sometimes 10..40), " +
 			"3..16 rounds, 0..w+1 attempts per round with delays 0..6, sink always ready / random per CanPush call / blocked then ready / k slots per tick. " +
 			"Non-trivial: at least two items left and a delay, a blocked sink or a refused accept occurred. Distinct = distinct input hash.",
 		Gen: gen, Run: run, Shrink: shrink,
